@@ -1,6 +1,7 @@
 """C02 interrupt / NMI / HALT / prefix sequencing: (S) Z80MC exhaustive over three ROMs with every
 INT/NMI level schedule, invariants written from the statement; (T) the exhaustive control matrix
 and random line schedules executed on the real CPU and validated by Z80Trace."""
+import json, os
 from props.z80common import *
 
 PID = "C02"
@@ -28,8 +29,38 @@ def run(tier, seed):
         cfg = f"MC_Z80MC_{rom}_quick.cfg" if quick else f"MC_Z80MC_{rom}.cfg"
         return rom, cfg, tlc("MC_Z80MC", cfg, PID, "mc" + rom, workers=4, deque=False, timeout=1500)
 
-    mcs = parallel([lambda r=r: mc(r) for r in "ABC"])
+    def gen(rom):
+        # spec -> impl: every behaviour of the specification CPU of length 5 (7) on this ROM, replayed on the real CPU
+        cfg = f"GenZ80MC_{rom}.cfg" if quick else f"GenZ80MC_{rom}_deep.cfg"
+        r = tlc("GenZ80MC", cfg, PID, "gen" + rom, workers=1, deque=False, timeout=1500)
+        beh = r.tuples("REPLAY")
+        if not r.ok or not beh:
+            raise ToolError(f"GenZ80MC {rom}: {r.error}")
+        wd = workdir(PID)
+        vec = os.path.join(wd, f"replay{rom}.ndjson")
+        with open(vec, "w") as f:
+            for t in beh:
+                f.write(json.dumps({"rom": t[1], "hist": t[2], "final": t[3]}) + "\n")
+        trace = os.path.join(wd, f"replay{rom}_trace.ndjson")
+        harness(["z80", "--out", trace, "--replaymc", vec])
+        rv, n, mm = validate(trace, "replay" + rom, PID)
+        return rom, len(beh), trace, rv, n, mm
+
+    build_harness()
+    both = parallel([lambda r=r: mc(r) for r in "ABC"] + [lambda r=r: gen(r) for r in "ABC"])
+    mcs, gens = both[:3], both[3:]
     chk = run_z80(PID, tier, seed, OWNED, args, rule, ASSUME, shards_q=1, shards_t=6)
+    replayed = 0
+    for rom, nb, trace, rv, n, mm in gens:
+        replayed += nb
+        chk.cov["events_validated"] += n
+        chk.cov["states"] += rv.distinct
+        chk.cov["transitions"] += rv.generated
+        for m in mm:
+            kinds, fields = kinds_of(m[3])
+            chk.classify(f"replay:{rom}:{','.join(fields)}", f"TLC-generated behaviour {m[2]} on ROM {rom}: the real CPU differs in {fields}",
+                         extract_run(trace, m[1])[-8:], extra=m)
+    chk.cov["spec_behaviours_replayed_on_impl"] = replayed
     for rom, cfg, r in mcs:
         if not r.ok:
             chk.violation(f"Z80MC ROM {rom}: {r.error}")
